@@ -205,8 +205,29 @@ func (c *Ctx) Finish(start time.Time) int {
 		}
 		return a.Key < b.Key
 	})
+	// restructuring tolerance (DESIGN.md §7): most rules look for a required shape inside particular functions. When the
+	// packages a check analyses contain functions that did not exist when the rules were confirmed (tool/func_baseline.json),
+	// the code was restructured - typically a helper was extracted - and "the required shape is not where it was" no longer
+	// means the property is broken. Findings of such rules are then printed as UNDECIDED and do not fail the check.
+	// Rules that report the presence of a forbidden construct (PositiveRules) are never downgraded.
+	var restructured []string
+	if c.Prog != nil && c.Prog.SSAPkg != nil {
+		if b, err := os.ReadFile(filepath.Join(verif, "tool", "func_baseline.json")); err == nil {
+			var fb struct {
+				Functions []string `json:"functions"`
+			}
+			if json.Unmarshal(b, &fb) == nil && len(fb.Functions) > 100 {
+				base := map[string]bool{}
+				for _, n := range fb.Functions {
+					base[n] = true
+				}
+				restructured = c.Prog.NewFunctionsIn(base, c.Prog.Queried)
+			}
+		}
+	}
 	var knownHit []string
 	var violations []Finding
+	var undecided []Finding
 	seen := map[string]bool{}
 	for _, f := range c.findings {
 		k := f.Rule + "|" + f.Key
@@ -217,10 +238,32 @@ func (c *Ctx) Finish(start time.Time) int {
 			}
 			continue
 		}
+		if len(restructured) > 0 && FragileRules[f.Rule] {
+			undecided = append(undecided, f)
+			continue
+		}
 		violations = append(violations, f)
 	}
 	for _, m := range c.fatal {
-		violations = append(violations, Finding{Property: c.Property, Rule: "analysis", Key: m, File: "-", Message: m})
+		f := Finding{Property: c.Property, Rule: "analysis", Key: m, File: "-", Message: m}
+		if len(restructured) > 0 && (strings.HasPrefix(m, "unresolved anchor") || strings.Contains(m, "the rule has gone blind")) {
+			undecided = append(undecided, f)
+			continue
+		}
+		violations = append(violations, f)
+	}
+	if len(undecided) > 0 {
+		shown := restructured
+		if len(shown) > 6 {
+			shown = append(append([]string{}, shown[:6]...), fmt.Sprintf("… %d more", len(restructured)-6))
+		}
+		var ul []string
+		for _, f := range undecided {
+			fmt.Printf("UNDECIDED property=%s rule=%s key=%s: the analysed packages were restructured since the rules were confirmed (new functions: %s); this rule looks for a shape inside particular functions and cannot tell. Reported text: %s\n", c.Property, f.Rule, f.Key, strings.Join(shown, ", "), f.Message)
+			ul = append(ul, f.Rule+"|"+f.Key)
+		}
+		c.extra["undecided_after_restructuring"] = ul
+		c.extra["new_functions"] = restructured
 	}
 	replayDir := filepath.Join(verif, "evidence", "replay")
 	os.MkdirAll(replayDir, 0o755)
@@ -366,4 +409,29 @@ func WriteLoadFailure(id, tier string, seed int64, err error, start time.Time) s
 	b, _ = json.MarshalIndent(ev, "", " ")
 	os.WriteFile(filepath.Join(verif, "evidence", id+".json"), b, 0o644)
 	return path
+}
+
+// FragileRules: rules that look for a required shape inside particular functions and that the false-alarm test
+// (neutral/, 60 behaviour-preserving refactorings) showed to report a violation when a helper is extracted, a function
+// split or a free function turned into a method - plus their siblings of the same construction. Only these are
+// downgraded to UNDECIDED when the analysed packages contain functions that are not in the inventory. Every other rule
+// either reports the presence of a forbidden construct or already looks into helpers, and stays strict.
+var FragileRules = map[string]bool{
+	// C01 / C02
+	"tok.steady": true, "tok.progress": true, "lex.operators": true, "lex.keywords": true, "lex.step": true, "prec.pratt": true,
+	"escape.bytes": true, "escape": true, "dup.case": true, "dispatch": true,
+	// C03 / C15
+	"fmt.inlinecmt": true, "fmt.chunks": true, "fmt.linecmt": true, "fmt.juxta": true, "cmt.macro": true, "cmt.slots": true, "cmt.emit": true, "cmt.token": true,
+	// C04
+	"verdict.indicators": true, "verdict.severity": true, "verdict.recorded": true, "verdict.exit": true,
+	// C05 / C06
+	"ref.op": true, "ref.return": true, "ref.stmt": true, "sm.restart": true, "sm.cache": true, "sm.succ": true, "sm.stmt": true, "sm.one": true, "sm.scope": true,
+	// C07
+	"acl.longest": true, "acl.mask": true, "acl.neg": true, "acl.order": true, "branch.if": true, "branch.switch": true, "ops.kernel": true, "ops.sibling": true,
+	// C08 / C11 / C13
+	"sim.lastidx": true, "sim.recursion": true, "sim.ctxnil": true, "lint.recursion": true, "lint.monotone": true, "lint.fixpoint": true, "pure.frame": true,
+	// C10 / C12
+	"test.exitguard": true, "ignore.slots": true, "ignore.symmetry": true, "ignore.clauses": true, "ignore.emptyrule": true, "ignore.filter": true, "ignore.pairing": true, "ignore.nesting": true, "ignore.funnel": true,
+	// C16 / C17 / C20
+	"fsatomic.rename": true, "hdr.quote": true, "hdr.canon": true, "tmpl.escape": true, "tmpl.fields": true, "tmpl.ident": true, "tmpl.acl": true, "tmpl.hex": true,
 }
